@@ -49,7 +49,7 @@ def _all_parts(mod, prop, tier):
     if pp is not None:
         parts.append(pp)
     from mc.props import threads
-    tp = threads.part(prop)
+    tp = threads.part(prop, tier)
     if tp is not None:
         parts.append(tp)
     return parts
